@@ -202,6 +202,8 @@ func (r *Run) ViolationCount() int {
 	return len(r.viol)
 }
 
+const maxReported = 25
+
 // Coverage is what a check hands to Finish.
 type Coverage struct {
 	Exhaustive bool
@@ -217,7 +219,12 @@ func (r *Run) Finish(cov Coverage) int {
 	known := []string{}
 	newViol := 0
 	sigs := append([]string{}, r.order...)
-	sort.Strings(sigs)
+	sort.Slice(sigs, func(i, j int) bool {
+		if len(sigs[i]) != len(sigs[j]) {
+			return len(sigs[i]) < len(sigs[j])
+		}
+		return sigs[i] < sigs[j]
+	})
 	os.MkdirAll(filepath.Join(Root, "replays"), 0o755)
 	type hit struct {
 		sigs  int
@@ -246,6 +253,9 @@ func (r *Run) Finish(cov Coverage) int {
 			continue
 		}
 		newViol++
+		if newViol > maxReported {
+			continue
+		}
 		h := sha1.Sum([]byte(sig))
 		path := filepath.Join(Root, "replays", fmt.Sprintf("%s-%s.json", r.Prop, hex.EncodeToString(h[:6])))
 		js, _ := json.MarshalIndent(v, "", " ")
@@ -254,6 +264,9 @@ func (r *Run) Finish(cov Coverage) int {
 			v.Kind, sig, compact(v.Input), v.Expected, v.Observed, v.Site, v.Count)
 		fmt.Printf("VIOLATION property=%s replay=%s\n", r.Prop, path)
 		exit = 1
+	}
+	if newViol > maxReported {
+		fmt.Printf("... and %d more distinct violation signatures (only the first %d are written out)\n", newViol-maxReported, maxReported)
 	}
 	for fi, f := range r.findings {
 		if h := hits[fi]; h != nil {
